@@ -75,6 +75,10 @@ def _verdict(case, d):
             outs.append(r.stdout + r.stderr)
             worst = max(worst, r.returncode)
         text = "\n".join(outs)
+        if expect == "documented-miss":
+            # value-level change outside what the clause-level check decides
+            # (DESIGN.md section 5/6); reported if it ever gets caught
+            return (case, "OK" if worst == 0 else "NOW-CAUGHT", "")
         if expect == "violation":
             if worst == 1 and (rule is None or rule in text):
                 return (case, "OK", "")
